@@ -430,14 +430,14 @@ def exportable(draw, depth=2, tail=True, allow_known=False):
 
 
 def campaign_fragment(ctx):
-    ctx.search(exportable(), oracle_factory(ctx), ctx.budget(4000, 200000))
-campaign_fragment.shards = (4, 16)
+    ctx.search(exportable(), oracle_factory(ctx), ctx.budget(16000, 200000))
+campaign_fragment.shards = (10, 16)
 
 
 def campaign_known(ctx):
     """the kinds with recorded exporter defects stay under test (each failure must carry its recorded bucket)"""
-    ctx.search(exportable(depth=1, allow_known=True), oracle_factory(ctx), ctx.budget(1500, 40000))
-campaign_known.shards = (2, 8)
+    ctx.search(exportable(depth=1, allow_known=True), oracle_factory(ctx), ctx.budget(6000, 40000))
+campaign_known.shards = (4, 8)
 
 
 CAMPAIGNS = {"fragment": campaign_fragment, "known": campaign_known}
